@@ -58,6 +58,9 @@ def check_shape(case):
     d3 = list(dims) + [0] * (3 - len(dims))
     rmax = max(max(d3), 1) + 1
     agent = Core.Agent('probe', model)
+    # ONE position component object per offset is moved from centre to centre (as an agent's own component would
+    # be), so an answer remembered for "this component" instead of "this cell" shows up
+    movers = {off: Envs.PositionComponent(agent, model, 0, 0, 0) for off in (0, 0.25, 0.75)}
     only = case.get('only')
     calls = 0
     balls = set()
@@ -76,8 +79,9 @@ def check_shape(case):
                     exp_i = [table.index(p) for p in exp_t]
                     forms = [('id', cid), ('tuple', centre)]
                     for off in (0, 0.25, 0.75):
-                        forms.append(('pc%s' % off, Envs.PositionComponent(agent, model, centre[0] + off,
-                                                                           centre[1] + off, centre[2] + off)))
+                        pc = movers[off]
+                        pc.x, pc.y, pc.z = centre[0] + off, centre[1] + off, centre[2] + off
+                        forms.append(('pc%s' % off, pc))
                     for fname, cpos in forms:
                         for entry in ('specific', 'generic'):
                             for ret in ('int', 'tuple'):
